@@ -210,12 +210,12 @@ def MaxRLESim : Prop :=
 def MtfOK (m : Impl.Mtf) : Prop :=
   m.dict.length = 256 ∧ m.tail ≤ 256 ∧ ∀ i, 256 - m.tail ≤ i → i < 256 → m.dict.getD i 0 = i
 
-/-- a block decoder of the model and the block state of the specification. -/
+/-- a block decoder of the model and the block state of the specification (with a single block type
+    both count the only block down from 2^24). -/
 def BlkRel (bd : Impl.BlockDec) (b : Blocks) : Prop :=
   bd.numTypes = b.ntypes ∧ 1 ≤ b.ntypes ∧ b.ntypes ≤ 256 ∧
   bd.type0 = b.cur ∧ bd.type1 = b.prev ∧ b.cur < b.ntypes ∧ (2 ≤ b.ntypes → b.prev < b.ntypes) ∧
-  (2 ≤ b.ntypes → CodeRel (b.ntypes + 2) bd.decType b.typeCode ∧ CodeRel 26 bd.decLen b.countCode ∧
-    bd.typeLen = (b.count : Int)) ∧
-  (b.ntypes < 2 → bd.typeLen < 0)
+  (2 ≤ b.ntypes → CodeRel (b.ntypes + 2) bd.decType b.typeCode ∧ CodeRel 26 bd.decLen b.countCode) ∧
+  bd.typeLen = (b.count : Int)
 
 end Compress.Proofs.BrImpl
